@@ -183,6 +183,13 @@ def schema_ir(draw, prof, comp_names: list[str], depth: int = 0, position: str =
             s["allOf"] = [{"k": "ref", "name": draw(st.sampled_from(comp_names))}]
     if prof["nullable"] and kind not in ("any", "enum", "const", "null") and draw(st.integers(0, 5)) == 0:
         s["nullable"] = True
+    if prof.get("defaults") and position in ("prop", "param") and draw(st.integers(0, 3)) == 0:
+        dv = {"str": "dflt", "int": 3, "num": 1.5, "bool": True, "date": "2020-01-02", "datetime": "2020-01-02T03:04:05+00:00",
+              "uuid": "12345678-1234-5678-1234-567812345678"}.get(kind)
+        if kind == "enum":
+            dv = s["values"][0]
+        if dv is not None:
+            s["default"] = dv
     if prof["desc"] and draw(st.booleans()):
         s["desc"] = "text " + draw(st.sampled_from(["one", "two words", "three more words"]))
     return s
